@@ -185,7 +185,7 @@ theorem catchFinish_guardsKept {m m2 : M} {econ : Ctx} {link : List Ctx} {r : Re
     · rename_i m6 hr
       have g6 := restoreContext_guards hr
       split
-      · exact raise_guardsKept _ _ _
+      · split <;> exact raise_guardsKept _ _ _
       · cases ha : afterCatch link { pushVals 1 m6 with lastCatch := m6.catchValue, catchValue := CV.num 1 } with
         | ok m' =>
           have ga := afterCatch_guards ha
@@ -234,8 +234,10 @@ theorem saveContext_guards {m m1 : M} {econ : Ctx} (h : saveContext m = some (ec
 theorem execOp_guards_of {o : Op} (h : ∀ m, GuardsKept m (execCore o m)) (m : M) : GuardsKept m (execOp o m) := by
   unfold execOp
   split
-  · exact raise_guardsKept _ _ _
-  · exact GuardsKept.of_eq (tick_sameG m).ld (tick_sameG m).rd (h _)
+  · exact h _
+  · split
+    · exact raise_guardsKept _ _ _
+    · exact GuardsKept.of_eq (tick_sameG m).ld (tick_sameG m).rd (h _)
 
 mutual
 theorem exec_guards : ∀ (p : Prog) (m : M), GuardsKept m (exec p m)
@@ -272,6 +274,20 @@ theorem execCore_guards : ∀ (o : Op) (m : M), GuardsKept m (execCore o m)
     · split <;> exact raise_guardsKept _ _ _
     · exact ⟨rfl, rfl⟩
   | .call k nargs declared body, m => by
+    simp only [execCore]
+    split
+    · exact raise_guardsKept _ _ _
+    · split
+      · trivial
+      · rename_i m2 ha
+        have g2 := adjustArgs_guards ha
+        have ge := enterCall_guards k declared (pushVals nargs m)
+        have hb : GuardsKept m (exec body m2) :=
+          GuardsKept.of_eq (g2.1.trans ge.1) (g2.2.trans ge.2) (exec_guards body m2)
+        split
+        · exact callFinish_guardsKept (thenTick_guardsKept hb)
+        · exact callFinish_guardsKept hb
+  | .cb k nargs declared body, m => by
     simp only [execCore]
     split
     · exact raise_guardsKept _ _ _
